@@ -3,7 +3,7 @@
 
    Spec/Filter.v      : the row predicate (`holds`), what a parameter dict denotes (`denote`), `expected`.
    Model/FilterPyDict : the PythonDict engine + BaseFilterEngine.do_filter / apply_single_filters, as written.
-   Model/FilterArrow  : the PyArrow regex method (search semantics) - the known-finding domain.
+   Model/FilterArrow  : the PyArrow regex method (anchored RE2 search).
    Model/TimeFilter   : GlobalFilter._check_and_convert_time_info.
    All statements are for tables of any size, any rows (also rows lacking the column), any parameter values.
    `fineb f t` = the filter denotes a condition and every non-null cell of its column is comparable with the
@@ -12,7 +12,7 @@
    not speak about.  Pandas and PyArrow are tied to `expected` by correspondence only (harness/c11.py). *)
 From Coq Require Import List Bool ZArith String Permutation.
 Import ListNotations.
-Require Import MV.Spec.Filter MV.Model.FilterPyDict MV.Model.FilterArrow MV.Model.TimeFilter.
+Require Import MV.Spec.Filter MV.Spec.FilterPlan MV.Model.FilterPyDict MV.Model.FilterArrow MV.Model.TimeFilter.
 Require Import MV.Proofs.FilterP MV.Proofs.TimeFilterP.
 Open Scope Z_scope.
 
@@ -55,6 +55,26 @@ Theorem C11_inapplicable_filter_ignored : forall names f fs t,
 Proof. exact apply_list_skip_l. Qed.
 Print Assumptions C11_inapplicable_filter_ignored.
 
+(* ---- exported plans (the planner glue is not modelled): if a feature-group step carries exactly the global filters
+        whose column its group exposes and the column of each is among the step's feature names (glue_okb, evaluated on
+        every plan exported from the real prepare), the step returns exactly the rows satisfying every applicable
+        global filter.  The second theorem shows the condition is not idle: a step lacking the filter column among
+        its names keeps rows the predicate rejects. ---- *)
+Theorem C11_plan_glue_sufficient : forall cols names fsS fs t,
+  glue_okb cols names fsS fs = true ->
+  (forall f, In f fsS -> fineb f t = true) ->
+  apply_single_filters names (Some fsS) t = Ok (expected cols fs t).
+Proof. exact glue_sufficient_l. Qed.
+Print Assumptions C11_plan_glue_sufficient.
+
+Theorem C11_plan_glue_skip_refutes :
+  let f := {| f_col := "c"%string; f_type := FMin; f_par := {| p_value := Some (VInt 2); p_values := None; p_min := None; p_max := None; p_excl := false |} |} in
+  let t := [[("id"%string, VInt 0); ("c"%string, VInt 1)]; [("id"%string, VInt 1); ("c"%string, VInt 2)]] in
+  glue_okb ["id"%string; "c"%string] ["id"%string] [f] [f] = false /\
+  apply_single_filters ["id"%string] (Some [f]) t = Ok t /\ expected ["id"%string; "c"%string] [f] t <> t.
+Proof. exact glue_skip_refutes_l. Qed.
+Print Assumptions C11_plan_glue_skip_refutes.
+
 (* ---- unconditional: whatever the filters, a successful run only drops rows (never adds, changes or reorders) ---- *)
 Theorem C11_result_is_a_restriction : forall names fs t t',
   apply_single_filters names (Some fs) t = Ok t' -> exists q, t' = filter q t.
@@ -87,18 +107,22 @@ Theorem C11_min_max_bounds : forall v c, vcmp v v = Some c ->
 Proof. exact min_max_inclusive_l. Qed.
 Print Assumptions C11_min_max_bounds.
 
-(* ---- PyArrow regex.  FULL STATEMENT (refuted on the faithful model, see C11_arrow_regex_refuted):
-          forall p s, arrow_regex_holds p (VStr s) = holds (CRegex p) (VStr s).
-        PROVED: outside the domain kf_arrow_regex (pattern not anchored with "^"). ---- *)
-Theorem C11_arrow_regex_partial : forall p s,
-  kf_arrow_regex p = false -> arrow_regex_holds p (VStr s) = holds (CRegex p) (VStr s).
-Proof. exact arrow_regex_partial_l. Qed.
-Print Assumptions C11_arrow_regex_partial.
+(* ---- PyArrow regex (engine as of /repo d2087b7: the pattern is anchored before RE2 search): full strength, for every
+        pattern of the family and every string; null cells are dropped like the predicate says.
+        (Until d2087b7 this was C11_arrow_regex_partial / _refuted: known finding C11-pyarrow-regex-unanchored, fixed.) ---- *)
+Theorem C11_arrow_regex_refines : forall p s, arrow_regex_holds p (VStr s) = holds (CRegex p) (VStr s).
+Proof. exact arrow_regex_refines_l. Qed.
+Print Assumptions C11_arrow_regex_refines.
 
-Theorem C11_arrow_regex_refuted :
-  kf_arrow_regex wit_pat = true /\ arrow_regex_holds wit_pat (VStr "ba") = true /\ holds (CRegex wit_pat) (VStr "ba") = false.
-Proof. exact arrow_regex_refuted_l. Qed.
-Print Assumptions C11_arrow_regex_refuted.
+Theorem C11_arrow_regex_null : forall p, arrow_regex_holds p VNull = holds (CRegex p) VNull.
+Proof. exact arrow_regex_null_l. Qed.
+Print Assumptions C11_arrow_regex_null.
+
+(* the statement is not vacuous: un-anchored search is a different predicate, and the engine does not compute it *)
+Theorem C11_search_semantics_differs :
+  search wit_pat "ba" = true /\ holds (CRegex wit_pat) (VStr "ba") = false /\ arrow_regex_holds wit_pat (VStr "ba") = false.
+Proof. exact search_differs_l. Qed.
+Print Assumptions C11_search_semantics_differs.
 
 (* ---- time filters ---- *)
 Theorem C11_utc_same_instant : forall x y ox oy,
